@@ -447,7 +447,7 @@ impl Property for C13 {
         true
     }
     fn case_timeout(&self) -> Duration {
-        Duration::from_secs(6)
+        Duration::from_secs(30)
     }
     fn describe(&self, bytes: &[u8]) -> J {
         let c = decode(bytes);
